@@ -273,10 +273,11 @@ def apply_real(t, op):
 
 
 def _arrays(t):
-    out = {"xyz": t._xyz, "time": t._time}
-    if t._unitcell_lengths is not None:
-        out["lengths"] = t._unitcell_lengths
-        out["angles"] = t._unitcell_angles
+    # the public properties hand out the stored arrays themselves (no copy), which is what aliasing is judged on
+    out = {"xyz": t.xyz, "time": t.time}
+    if t.unitcell_lengths is not None:
+        out["lengths"] = t.unitcell_lengths
+        out["angles"] = t.unitcell_angles
     return out
 
 
